@@ -302,3 +302,23 @@ pub mod escaped {
         super::unescape_bytes(&s).map_err(serde::de::Error::custom)
     }
 }
+
+// ---------------------------------------------------------------------------
+// Scratch files for the real-file-system cross-check of the path wrappers
+// ---------------------------------------------------------------------------
+
+/// A fresh file name in a per-process scratch directory (`$VERIF_SCRATCH`, default
+/// `/verif/work`), or `None` if no such directory can be made.
+pub fn scratch_file(ext: &str) -> Option<std::path::PathBuf> {
+    use std::sync::atomic::{AtomicU64, Ordering};
+    static N: AtomicU64 = AtomicU64::new(0);
+    let root = std::env::var("VERIF_SCRATCH").unwrap_or_else(|_| "/verif/work".into());
+    let dir = std::path::Path::new(&root).join(format!("fs-{}", std::process::id()));
+    std::fs::create_dir_all(&dir).ok()?;
+    Some(dir.join(format!("f{}.{ext}", N.fetch_add(1, Ordering::Relaxed))))
+}
+
+pub fn scratch_cleanup() {
+    let root = std::env::var("VERIF_SCRATCH").unwrap_or_else(|_| "/verif/work".into());
+    let _ = std::fs::remove_dir_all(std::path::Path::new(&root).join(format!("fs-{}", std::process::id())));
+}
